@@ -43,6 +43,7 @@ reg("C09", "h_c09")
 reg("C02", "h_c02")
 reg("C17", "h_c17")
 reg("C16", "h_c16")
+reg("C16", "h_c16_cxx")
 reg("C10", "h_c10")
 reg("C11", "h_c11")
 reg("C11", "h_c10")
@@ -82,7 +83,7 @@ def repo_all_inputs():
 
 def verif_sources():
     return (glob.glob(os.path.join(VERIF, "vk/*.[ch]")) + glob.glob(os.path.join(VERIF, "vk/syms.map"))
-            + glob.glob(os.path.join(VERIF, "harness/*.[ch]")) + glob.glob(os.path.join(VERIF, "child/*.[ch]")))
+            + glob.glob(os.path.join(VERIF, "harness/*.[ch]")) + glob.glob(os.path.join(VERIF, "harness/*.cpp")) + glob.glob(os.path.join(VERIF, "child/*.[ch]")))
 
 
 VARIANTS = {
@@ -138,6 +139,12 @@ def build(variant="plain", quiet=True):
         o = os.path.join(out, "h_" + os.path.basename(s).replace(".c", ".o"))
         hobjs.append(o)
         cmds.append(["gcc", "-O1", "-g", "-std=gnu11", "-Wall", "-Wno-unused-variable", "-Wno-unused-function", "-D_GNU_SOURCE"] + san + inc + ["-c", s, "-o", o])
+    # C++ parts: reproc++ itself (from REPO) and the C++ harnesses, over the same interposed C objects
+    cxxinc = ["-I", os.path.join(REPO, "reproc++/include")] + inc
+    for s in sorted(glob.glob(os.path.join(VERIF, "harness/*.cpp"))) + [os.path.join(REPO, "reproc++/src/reproc.cpp")]:
+        o = os.path.join(out, "x_" + os.path.basename(s).replace(".cpp", ".o"))
+        hobjs.append(o)
+        cmds.append(["g++", "-O1", "-g", "-std=c++11", "-Wall", "-Wno-unused-variable", "-Wno-unused-function", "-D_GNU_SOURCE"] + san + cxxinc + ["-c", s, "-o", o])
     cmds.append(["gcc", "-O1", "-static", "-DVCHILD_MAIN", "-D_GNU_SOURCE", os.path.join(VERIF, "child/vchild.c"), "-o", os.path.join(out, "vchild")])
     # 16 at a time
     for i in range(0, len(cmds), NPROC):
@@ -159,7 +166,7 @@ def build(variant="plain", quiet=True):
         unknown.append(sym)
     with open(os.path.join(out, "unknown_symbols.json"), "w") as f:
         json.dump(unknown, f)
-    sh(["gcc"] + san + ["-o", hx, vko] + hobjs + ["-lpthread"])
+    sh(["g++"] + san + ["-o", hx, vko] + hobjs + ["-lpthread"])
     return out
 
 
@@ -224,10 +231,10 @@ def run_harness(bdir, sc, harness, tier, deadline, env_extra=None):
 def merge(stats):
     m = {"executions": 0, "choice_points": 0, "distinct_observations": 0, "infra_errors": 0, "crashes": 0, "replay_checked": 0,
          "replay_mismatch": 0, "configs_total": 0, "configs_done": 0, "capped_configs": 0, "max_trace": 0, "trace_overflow": 0,
-         "viol_overflow": 0, "bfs_states": 0, "bfs_max_depth": 0, "deadline_hit": False, "outcomes": {}, "deviations": {}, "clause_hits": {}, "violations": [], "samples": []}
+         "viol_overflow": 0, "real_exec_validated": 0, "real_exec_mismatch": 0, "bfs_states": 0, "bfs_max_depth": 0, "deadline_hit": False, "outcomes": {}, "deviations": {}, "clause_hits": {}, "violations": [], "samples": []}
     for s in stats:
         for k in ("executions", "choice_points", "distinct_observations", "infra_errors", "crashes", "replay_checked", "replay_mismatch",
-                  "configs_done", "capped_configs", "trace_overflow", "viol_overflow", "bfs_states"):
+                  "configs_done", "capped_configs", "trace_overflow", "viol_overflow", "bfs_states", "real_exec_validated", "real_exec_mismatch"):
             m[k] += s.get(k, 0)
         m["bfs_max_depth"] = max(m["bfs_max_depth"], s.get("bfs_max_depth", 0))
         m["configs_total"] = s["configs_total"]
@@ -538,7 +545,8 @@ def check(prop, tier):
             if v["prop"] != prop:
                 other[v["prop"] + "/" + v["clause"]] = other.get(v["prop"] + "/" + v["clause"], 0) + v["count"]
     exhaustive = (not any(m["deadline_hit"] for m in allm) and tot["capped_configs"] == 0 and tot["infra_errors"] == 0
-                  and tot["configs_done"] == tot["configs_total"] and tot["trace_overflow"] == 0 and tot["replay_mismatch"] == 0 and not errs_all)
+                  and tot["configs_done"] == tot["configs_total"] and tot["trace_overflow"] == 0 and tot["replay_mismatch"] == 0 and not errs_all
+                  and sum(m["real_exec_mismatch"] for m in allm) == 0)
     samples = []
     for m in allm:
         for s in m["samples"][:3]:
@@ -550,7 +558,8 @@ def check(prop, tier):
             "states": (sum(m["bfs_states"] for m in allm) or tot["distinct_observations"]),
             # every execution is at least the transition out of the initial state of its configuration; choice points passed come on top
             "transitions": (tot["executions"] if any(m["bfs_states"] for m in allm) else tot["choice_points"] + tot["executions"]),
-            "traces_validated_against_impl": tot["replay_checked"],
+            "traces_validated_against_impl": tot["replay_checked"] + sum(m["real_exec_validated"] for m in allm),
+            "validated_real_exec": sum(m["real_exec_validated"] for m in allm), "real_exec_mismatch": sum(m["real_exec_mismatch"] for m in allm),
             "evaluations": tot["executions"], "distinct_nontrivial": tot["distinct_observations"],
             "rule": "one evaluation = one complete execution of the real library under one choice sequence (schedule of child steps, fault answers, "
                     "clock outcomes) of one configuration; distinct = distinct hash of the API-level observation log (results, bytes, events); "
